@@ -188,8 +188,9 @@ func c09VacuumHandle(c *Ctx) {
 		return
 	}
 	name := core.FuncName(fn)
+	sc := c.Scope(fn)
 	var commit, dhCall ssa.CallInstruction
-	for _, call := range an.Calls(fn) {
+	for _, call := range sc.Calls() {
 		if an.CalleeIs(call, kvPkg, "DB", "Commit") {
 			commit = call
 		}
@@ -203,16 +204,18 @@ func c09VacuumHandle(c *Ctx) {
 	}
 	committed := commit.Common().Args[0]
 	var swap *ssa.Store
-	for _, st := range an.StoresToField(fn, kvRoot) {
-		if sameExpr(st.Val, committed) {
-			swap = st
+	for _, f := range sc.Funcs {
+		for _, st := range an.StoresToField(f, kvRoot) {
+			if f == commit.Parent() && sameExpr(st.Val, committed) {
+				swap = st
+			}
 		}
 	}
-	c.R.Cond(swap != nil && an.InstrBefore(swap, dhCall), rule, name+": committed tree is live before history is deleted", c.P.Pos(dhCall.Pos()),
+	c.R.Cond(swap != nil && sc.Before(swap, dhCall), rule, name+": committed tree is live before history is deleted", c.P.Pos(dhCall.Pos()),
 		"Tree.Root = <committed clone> precedes DeleteHistoricVersions", "history is deleted while the connection still holds the pre-vacuum handle: if deletion fails half way the connection keeps a tree whose objects are gone")
 	h := dhCall.Common().Args[1]
-	good := sameExpr(h, committed)
-	if !good && an.FieldOfLoad(h) == kvRoot && swap != nil && an.InstrBefore(swap, dhCall) {
+	good := dhCall.Parent() == commit.Parent() && sameExpr(h, committed)
+	if !good && an.FieldOfLoad(h) == kvRoot && swap != nil && sc.Before(swap, dhCall) {
 		good = true
 	}
 	c.R.Cond(good, rule, name+": history is computed from the committed handle", c.P.Pos(dhCall.Pos()),
@@ -263,6 +266,7 @@ func c10OneCutoff(c *Ctx) {
 		return
 	}
 	name := core.FuncName(fn)
+	sc := c.Scope(fn)
 	cut := an.ParamNamed(fn, "beforeTime")
 	if cut == nil {
 		for _, p := range fn.Params {
@@ -275,10 +279,10 @@ func c10OneCutoff(c *Ctx) {
 		c.R.Errorf("Vacuum has no time.Time cutoff parameter")
 		return
 	}
-	isCut := func(v ssa.Value) bool { return an.SameValue(v, cut) }
+	isCut := func(v ssa.Value) bool { return an.SameValue(sc.ArgOfParam(v), cut) }
 	// row side: a Before/After comparison whose argument is the cutoff
 	rowSide := false
-	for _, call := range an.Calls(fn) {
+	for _, call := range sc.Calls() {
 		f := call.Common().StaticCallee()
 		if f != nil && an.PkgPathOf(f) == "time" && (f.Name() == "Before" || f.Name() == "After") {
 			for _, a := range call.Common().Args {
@@ -291,7 +295,7 @@ func c10OneCutoff(c *Ctx) {
 	c.R.Cond(rowSide, rule, name+": row delete times are compared with the cutoff", c.P.Pos(fn.Pos()), "Before/After(cutoff) in the row loop", "the row-side test does not use the cutoff parameter itself")
 	for _, t := range []struct{ typ, m, what string }{{"DB", "RemoveTombstones", "tombstone purge"}, {"", "DeleteHistoricVersions", "version side"}} {
 		found := false
-		for _, call := range an.Calls(fn) {
+		for _, call := range sc.Calls() {
 			if (t.typ != "" && an.CalleeIs(call, kvPkg, t.typ, t.m)) || (t.typ == "" && call.Common().StaticCallee() == dh) {
 				found = true
 				a := call.Common().Args
